@@ -14,15 +14,17 @@ Lemma upd_case {A} (f : nat -> A) k v x :
 Proof. destruct (Nat.eq_dec x k); [left|right]; split; auto; subst; [apply upd_eq|apply upd_neq; auto]. Qed.
 
 Ltac upd_tac :=
-  repeat (rewrite upd_eq in * );
-  repeat match goal with
-  | H : context [upd ?f ?k ?v ?x] |- _ =>
-      let E := fresh "E" in let N := fresh "N" in
-      destruct (upd_case f k v x) as [[N E]|[N E]]; rewrite E in *; clear E; [subst|]
-  | |- context [upd ?f ?k ?v ?x] =>
-      let E := fresh "E" in let N := fresh "N" in
-      destruct (upd_case f k v x) as [[N E]|[N E]]; rewrite E in *; clear E; [subst|]
-  end.
+  repeat first
+  [ rewrite upd_eq in *
+  | match goal with
+    | N : ?x <> ?k |- _ => rewrite (upd_neq _ k _ x N) in *
+    end
+  | match goal with
+    | H : context [upd ?f ?k ?v ?x] |- _ =>
+        let N := fresh "N" in destruct (Nat.eq_dec x k) as [N|N]; [subst|]
+    | |- context [upd ?f ?k ?v ?x] =>
+        let N := fresh "N" in destruct (Nat.eq_dec x k) as [N|N]; [subst|]
+    end ].
 
 Lemma oeqb_spec a b : reflect (a = b) (oeqb a b).
 Proof.
@@ -135,10 +137,33 @@ Section Step.
 Variable s : state.
 Hypothesis I : inv s.
 
-Let I1 := i_chain s I. Let I2 := i_nodup s I. Let I3 := i_own s I. Let I4 := i_listed s I.
-Let I5 := i_held s I. Let I6 := i_pend s I. Let I7 := i_inj s I. Let I8 := i_linked s I.
-Let I9 := i_nd_disp s I. Let I10 := i_nd_recl s I. Let I11 := i_recl_pub s I. Let I12 := i_pub_disp s I.
-Let I13 := i_disp s I. Let I14 := i_active s I. Let I15 := i_lpub s I. Let I16 := i_rgen s I.
+Ltac getinv :=
+  pose proof (i_chain s I) as I1;
+  pose proof (i_nodup s I) as I2;
+  pose proof (i_own s I) as I3;
+  pose proof (i_listed s I) as I4;
+  pose proof (i_held s I) as I5;
+  pose proof (i_pend s I) as I6;
+  pose proof (i_inj s I) as I7;
+  pose proof (i_linked s I) as I8;
+  pose proof (i_nd_disp s I) as I9;
+  pose proof (i_nd_recl s I) as I10;
+  pose proof (i_recl_pub s I) as I11;
+  pose proof (i_pub_disp s I) as I12;
+  pose proof (i_disp s I) as I13;
+  pose proof (i_active s I) as I14;
+  pose proof (i_lpub s I) as I15;
+  pose proof (i_rgen s I) as I16.
+
+Ltac sat :=
+  repeat match goal with
+  | H : held (dpcs s ?t) = Some ?r |- _ =>
+      lazymatch goal with
+      | _ : status s r = Pending |- _ => fail
+      | _ => pose proof (i_held s I _ _ H)
+      end
+  end.
+Ltac fin := simpl in *; sat; try congruence; eauto.
 
 (* writes into a buffer that is not on a list and not Linked by anybody leave the structure intact *)
 Lemma link_write_ok r v :
@@ -150,12 +175,14 @@ Lemma link_write_ok r v :
   | ONext r0 n => exists d, drain s = r0 :: d /\ chain (upd (link s) r v) n d
   end.
 Proof.
+  getinv.
   intros H. pose proof (not_listed_notin s r I H) as Hn. apply notin_app in Hn. destruct Hn.
   split; [apply chain_upd; auto | apply own_chain_upd; auto].
 Qed.
 
 Lemma step_DBegin t r s' : step s (DBegin t r) = Some s' -> inv s'.
 Proof.
+  getinv.
   unfold step. destruct (dpcs s t) eqn:Ep; try discriminate. destruct (status s r) eqn:Es; try discriminate.
   intros H; inversion H; subst; clear H.
   assert (Hfresh : ~ In (r, gen s r) (disposed s)).
@@ -167,10 +194,7 @@ Proof.
   - intros r0 Hs. upd_tac.
     + exists t. rewrite upd_eq. reflexivity.
     + destruct (I6 _ Hs) as [t0 Ht0]. exists t0. rewrite upd_neq; auto. intro; subst. rewrite Ep in Ht0. discriminate.
-  - intros t1 t2 r0 H1 H2. upd_tac; auto; simpl in *.
-    + inversion H1; subst. apply I5 in H2. congruence.
-    + inversion H2; subst. apply I5 in H1. congruence.
-    + eauto.
+  - intros t1 t2 r0 H1 H2. upd_tac; fin.
   - intros t0 r0 h Hd. upd_tac; try discriminate. eauto.
   - constructor; auto.
   - apply incl_tl; auto.
@@ -179,7 +203,7 @@ Proof.
     + destruct (I13 _ _ Hin) as [?|[? Hp]]; auto. right. upd_tac; auto.
   - intros r0 Hs. upd_tac.
     + split; [left; auto|]. intro Hr. destruct (I16 _ _ Hr) as [?|[_ ?]]; [lia|congruence].
-    + destruct (I14 _ Hs). split; auto. right; auto.
+    + destruct (I14 _ Hs). split; auto.
   - intros r0 Hs. upd_tac; try discriminate. auto.
   - intros r0 g Hin. destruct (I16 _ _ Hin) as [?|[? ?]]; auto. upd_tac; auto. congruence.
 Qed.
@@ -191,6 +215,7 @@ Lemma held_same_ok t p r :
   (forall r0, status s r0 = Pending -> exists t0, held (upd (dpcs s) t p t0) = Some r0) /\
   (forall t1 t2 r0, held (upd (dpcs s) t p t1) = Some r0 -> held (upd (dpcs s) t p t2) = Some r0 -> t1 = t2).
 Proof.
+  getinv.
   intros Ho Hn.
   assert (E : forall t0, held (upd (dpcs s) t p t0) = held (dpcs s t0)).
   { intros t0. destruct (upd_case (dpcs s) t p t0) as [[-> ->]|[_ ->]]; congruence. }
@@ -202,6 +227,7 @@ Qed.
 
 Lemma step_DLoad t s' : step s (DLoad t) = Some s' -> inv s'.
 Proof.
+  getinv.
   unfold step. destruct (dpcs s t) eqn:Ep; try discriminate.
   intros H; inversion H; subst; clear H.
   destruct (held_same_ok t (Loaded r (head s)) r) as [A [B C]]; [rewrite Ep; auto|auto|].
@@ -211,13 +237,15 @@ Qed.
 
 Lemma step_DLink t s' : step s (DLink t) = Some s' -> inv s'.
 Proof.
+  getinv.
   unfold step. destruct (dpcs s t) eqn:Ep; try discriminate.
   intros H; inversion H; subst; clear H.
   destruct (held_same_ok t (Linked r h) r) as [A [B C]]; [rewrite Ep; auto|auto|].
   assert (Hp : status s r = Pending) by (apply (I5 t); rewrite Ep; auto).
   destruct (link_write_ok r h) as [L1 L2]; [congruence|].
   constructor; simpl; auto.
-  intros t0 r0 h0 Hd. upd_tac.
+  intros t0 r0 h0 Hd.
+  destruct (upd_case (dpcs s) t (Linked r h) t0) as [[-> E]|[N E]]; rewrite E in Hd; clear E.
   - inversion Hd; subst. apply upd_eq.
   - assert (r0 <> r).
     { intro; subst. apply N. apply (I7 t0 t r); [rewrite Hd|rewrite Ep]; auto. }
@@ -226,6 +254,7 @@ Qed.
 
 Lemma step_DCas t sp s' : step s (DCas t sp) = Some s' -> inv s'.
 Proof.
+  getinv.
   unfold step. destruct (dpcs s t) eqn:Ep; try discriminate.
   assert (Hh : held (dpcs s t) = Some r) by (rewrite Ep; auto).
   assert (Hp : status s r = Pending) by (apply (I5 t); auto).
@@ -241,8 +270,8 @@ Proof.
     + intros r0. upd_tac.
       * split; auto.
       * rewrite I4. split; auto. intros [?|?]; auto. congruence.
-    + intros t0 r0 H0. upd_tac; try discriminate; auto.
-      exfalso. apply N. apply (I7 t0 t r0); auto.
+    + intros t0 r0 H0. upd_tac; simpl in *; try discriminate; eauto.
+      exfalso. apply N. eapply I7; eauto.
     + intros r0 Hs. upd_tac; try discriminate. destruct (I6 _ Hs) as [t0 Ht0]. exists t0.
       rewrite upd_neq; auto. intro; subst. congruence.
     + intros t1 t2 r0 H1 H2. upd_tac; try discriminate. eauto.
@@ -262,9 +291,10 @@ Qed.
 
 Lemma step_OExchange s' : step s OExchange = Some s' -> inv s'.
 Proof.
+  getinv.
   unfold step. destruct (own s) eqn:Eo; try discriminate.
   intros H; inversion H; subst; clear H.
-  assert (Ed : drain s = []) by (rewrite Eo in I3; auto).
+  assert (Ed : drain s = []) by (try rewrite Eo in I3; auto).
   constructor; simpl; auto.
   - rewrite Ed, app_nil_r in I2. auto.
   - intros r. rewrite I4, Ed, app_nil_r. reflexivity.
@@ -272,9 +302,10 @@ Qed.
 
 Lemma step_ORead s' : step s ORead = Some s' -> inv s'.
 Proof.
+  getinv.
   unfold step. destruct (own s) eqn:Eo; try discriminate. destruct c; try discriminate.
   intros H; inversion H; subst; clear H.
-  rewrite Eo in I3.
+  try rewrite Eo in I3.
   constructor; simpl; auto.
   destruct (drain s) as [|a d]; simpl in I3; [discriminate|]. destruct I3 as [E C]. inversion E; subst.
   exists d; auto.
@@ -282,18 +313,20 @@ Qed.
 
 Lemma step_ODone s' : step s ODone = Some s' -> inv s'.
 Proof.
+  getinv.
   unfold step. destruct (own s) eqn:Eo; try discriminate. destruct c; try discriminate.
   intros H; inversion H; subst; clear H.
-  rewrite Eo in I3.
+  try rewrite Eo in I3.
   constructor; simpl; auto.
   destruct (drain s); auto. simpl in I3. destruct I3; discriminate.
 Qed.
 
 Lemma step_OFree g s' : step s (OFree g) = Some s' -> inv s'.
 Proof.
+  getinv.
   unfold step. destruct (own s) eqn:Eo; try discriminate.
   intros H; inversion H; subst; clear H.
-  rewrite Eo in I3. destruct I3 as [d [Ed Cd]].
+  try rewrite Eo in I3. destruct I3 as [d [Ed Cd]].
   assert (Hin : In r (shared s ++ drain s)) by (rewrite Ed; apply in_or_app; right; left; auto).
   assert (Hl : status s r = Listed) by (apply I4; auto).
   pose proof I2 as ND. rewrite Ed in ND.
@@ -326,11 +359,11 @@ Qed.
 
 Lemma step_OAlloc r g s' : step s (OAlloc r g) = Some s' -> inv s'.
 Proof.
+  getinv.
   unfold step. destruct (own s) eqn:Eo; try discriminate. destruct (status s r) eqn:Es; try discriminate.
   intros H; inversion H; subst; clear H.
-  destruct (link_write_ok r g) as [L1 L2]; [congruence|]. rewrite Eo in L2.
+  destruct (link_write_ok r g) as [L1 L2]; [congruence|]. try rewrite Eo in L2.
   constructor; simpl; auto.
-  - rewrite Eo; auto.
   - intros r0. rewrite <- I4. upd_tac; split; congruence.
   - intros t0 r0 Hh. pose proof (I5 _ _ Hh). upd_tac; auto. congruence.
   - intros r0 Hs. upd_tac; try discriminate. auto.
@@ -357,6 +390,7 @@ Lemma status_move_ok r v lk' own' :
   inv (mkState (head s) lk' (dpcs s) own' (upd (status s) r v) (gen s) (shared s) (drain s)
                (disposed s) (published s) (reclaimed s)).
 Proof.
+  getinv.
   intros Hu Hv Hf L1 L2 L3.
   assert (Hnp : status s r <> Pending) by (intro E; rewrite E in Hu; discriminate).
   assert (Hnl : status s r <> Listed) by (intro E; rewrite E in Hu; discriminate).
@@ -376,26 +410,27 @@ Qed.
 
 Lemma step_OAdd r s' : step s (OAdd r) = Some s' -> inv s'.
 Proof.
+  getinv.
   unfold step. destruct (own s) eqn:Eo; try discriminate. destruct (status s r) eqn:Es; try discriminate.
   intros H; inversion H; subst; clear H.
-  apply status_move_ok; auto; try (rewrite Es; auto).
-  - right; discriminate.
-  - pose proof I3 as X. rewrite Eo in X. auto.
+  rewrite <- Eo at 1.
+  apply status_move_ok; auto; try (rewrite Es; auto); try (right; discriminate); try (rewrite Eo; auto).
 Qed.
 
 Lemma step_OExtract r s' : step s (OExtract r) = Some s' -> inv s'.
 Proof.
+  getinv.
   unfold step. destruct (own s) eqn:Eo; try discriminate. destruct (status s r) eqn:Es; try discriminate.
   intros H; inversion H; subst; clear H.
-  apply status_move_ok; auto; try (rewrite Es; auto).
-  - right; discriminate.
-  - pose proof I3 as X. rewrite Eo in X. auto.
+  rewrite <- Eo at 1.
+  apply status_move_ok; auto; try (rewrite Es; auto); try (right; discriminate); try (rewrite Eo; auto).
 Qed.
 
 Lemma linked_upd_ok r v :
   status s r <> Pending ->
   forall t r0 h, dpcs s t = Linked r0 h -> upd (link s) r v r0 = h.
 Proof.
+  getinv.
   intros Hn t r0 h Hd. assert (r0 <> r).
   { intro; subst. apply Hn. apply (I5 t). rewrite Hd; auto. }
   rewrite upd_neq; eauto.
@@ -403,15 +438,17 @@ Qed.
 
 Lemma step_ORemove r g s' : step s (ORemove r g) = Some s' -> inv s'.
 Proof.
+  getinv.
   unfold step. destruct (own s) eqn:Eo; try discriminate. destruct (status s r) eqn:Es; try discriminate.
   intros H; inversion H; subst; clear H.
-  destruct (link_write_ok r g) as [L1 L2]; [congruence|]. rewrite Eo in L2.
+  destruct (link_write_ok r g) as [L1 L2]; [congruence|]. try rewrite Eo in L2.
   apply status_move_ok; auto; try (rewrite Es; auto).
   apply linked_upd_ok. congruence.
 Qed.
 
 Lemma step_Scribble r g s' : step s (Scribble r g) = Some s' -> inv s'.
 Proof.
+  getinv.
   unfold step. destruct (in_use (status s r)) eqn:Eu; try discriminate.
   intros H; inversion H; subst; clear H.
   assert (Hnl : status s r <> Listed) by (intro E; rewrite E in Eu; discriminate).
